@@ -88,6 +88,12 @@ def _toy_source(node) -> str:
         body = f"{ps[0]}.sum(dim=0)" + "".join(f" + ({c[i]!r}) * {p}" for i, p in enumerate(ps[1:], 1))
     elif fn == "rowmean":
         body = f"{ps[0]}.mean(dim=0) * ({c[0]!r})" + "".join(f" + {p}" for p in ps[1:])
+    elif fn == "window":  # weighted tensor whose *weights* depend on an individual input (an observation window)
+        body = f"WeightedTensor(({c[0]!r}) * {ps[0]} + ({c[1]!r}), {ps[0]} > ({c[2]!r}))"
+    elif fn == "wrow":    # row-wise function of a weighted tensor (value and weight both matter)
+        body = f"{ps[0]}.weighted_value * ({c[0]!r}) + {ps[0]}.weight.to({ps[0]}.value.dtype)"
+    elif fn == "wsum":    # aggregate over individuals of a weighted tensor
+        body = f"{ps[0]}.weighted_value.sum(dim=0) + ({c[0]!r}) * {ps[0]}.weight.to({ps[0]}.value.dtype).sum(dim=0)"
     elif fn == "total":  # scalar-like aggregate keeping pop shape (k,)
         body = f"{ps[0]}.sum(dim=0) * 0 + {ps[0]}.sum()" + "".join(f" + {p}" for p in ps[1:])
     else:
@@ -129,11 +135,13 @@ def build_toy(graph: dict, ctx: ToyCtx):
         elif node["role"] == "input":
             variables[nm] = DataVariable()
         else:
-            ns = {"torch": torch, "_ctx": hook}
+            from leaspy.utils.weighted_tensor import WeightedTensor
+
+            ns = {"torch": torch, "_ctx": hook, "WeightedTensor": WeightedTensor}
             exec(_toy_source(node), ns)
             variables[nm] = LinkedVariable(ns[f"{nm}_def"])
     dag = VariablesDAG.from_dict(variables)
-    tags = {node["name"]: node["tag"] for node in graph["nodes"]}
+    tags = {node["name"]: ("ind" if node["tag"] == "indw" else node["tag"]) for node in graph["nodes"]}
     shapes = {nm: ((n, k) if tg == "ind" else (k,)) for nm, tg in tags.items()}
     settable = [node["name"] for node in graph["nodes"] if node["role"] == "input"]
     return dag, {"tags": tags, "shapes": shapes, "settable": settable, "n": n, "k": k}
@@ -186,9 +194,20 @@ def gen_toy_graph(st: Stream) -> dict:
         if fn == "exp":
             cs[0] = round(st.uniform(-0.3, 0.3), 2)
         nodes.append({"name": f"d{j}", "role": "derived", "tag": tag, "parents": ps, "fn": fn, "consts": cs})
+    # weighted chain (drawn after the plain nodes): window(ind input) -> row-wise user and / or aggregate
+    j = n_derived
+    if st.bernoulli(0.35):
+        src = st.choice([x["name"] for x in nodes if x["role"] == "input" and x["tag"] == "ind"])
+        cs = [round(st.uniform(-1.5, 1.5), 2) or 0.5 for _ in range(5)]
+        cs[2] = round(st.uniform(-0.4, 0.4), 2)
+        wname = f"d{j}"
+        nodes.append({"name": wname, "role": "derived", "tag": "indw", "parents": [src], "fn": "window", "consts": cs})
+        j += 1
+        for fn, tag in st.sample([("wrow", "ind"), ("wsum", "agg")], st.randint(1, 2)):
+            nodes.append({"name": f"d{j}", "role": "derived", "tag": tag, "parents": [wname], "fn": fn, "consts": [round(st.uniform(0.5, 1.5), 2), 0, 0, 0, 0]})
+            j += 1
     # no isolated node: give every childless root a child
     used = {p for x in nodes for p in x["parents"]}
-    j = n_derived
     for x in list(nodes):
         if not x["parents"] and x["name"] not in used:
             if x["tag"] == "ind":
@@ -348,7 +367,7 @@ def gen_ops(plan: dict) -> list:
             ("read", 30), ("set", 16), ("put", 10), ("revert", 8), ("set_then_partial", 9), ("set_none", 4),
             ("precompute", 4), ("clone", 4 if n_states < 3 else 0), ("mode", 5), ("fork_enter", 3), ("fork_exit", 3),
             ("clear_reinit", 1), ("is_set", 2), ("misuse", 2), ("read_all", 3), ("arm_raise", 4 if graph["type"] == "toy" else 0),
-            ("set_nonfinite", 2),
+            ("set_nonfinite", 2), ("update", 5),
         ])
         vcount += 1
         if kind == "read":
@@ -360,6 +379,11 @@ def gen_ops(plan: dict) -> list:
         elif kind == "set_nonfinite":
             ops.append({"op": "set", "sid": sid, "name": st.choice(inputs_ind + inputs_pop), "sel": st.u64() & 0xFFFF, "v": vcount,
                         "nonfinite": st.choice(["nan", "inf", "-inf"])})
+        elif kind == "update":
+            # bulk assignment through the MutableMapping interface: documented as a sequence of assignments (the last one is revertible)
+            k_up = st.randint(2, 3)
+            ops.append({"op": "update", "sid": sid, "items": [{"name": st.choice(inputs_ind + inputs_pop), "sel": st.u64() & 0xFFFF, "v": vcount * 10 + j}
+                                                              for j in range(k_up)], "then_revert": st.bernoulli(0.5), "form": st.choice(["dict", "pairs", "kwargs"])})
         elif kind == "set_none":
             ops.append({"op": "set_none", "sid": sid, "name": st.choice(inputs_ind + inputs_pop + data_names), "sel": st.u64() & 0xFFFF})
         elif kind == "put":
@@ -698,6 +722,39 @@ def run_plan(plan: dict) -> dict:
                     r.assign(nm, newv)
                     log.add("put", sid, nm, idx, op["accumulate"], tdigest(newv))
             since_assign[sid] = {"name": nm, "reads": []}
+        elif k == "update":
+            items = []
+            for it in op["items"]:
+                nm = _resolve(it["name"], it["sel"], info, plan)
+                if nm is None or any(nm == x[0] for x in items):
+                    continue
+                items.append((nm, _value_for(plan, info, nm, it["v"], r)))
+            if len(items) < 2:
+                continue
+            probes["probe.bulk_update"] += 1
+            if op["form"] == "dict":
+                got = _outcome_real(lambda: s.update(dict(items)))
+            elif op["form"] == "pairs":
+                got = _outcome_real(lambda: s.update(list(items)))
+            else:
+                got = _outcome_real(lambda: s.update(**dict(items)))
+            if got[0] != "ok":
+                violation(out, "read_value", f"update_failed:{got[0]}", f"{where}: {got[1]}")
+            for nm, v in items:
+                r.assign(nm, v)
+            since_assign[sid] = {"name": items[-1][0], "reads": []}
+            log.add("update", sid, [nm for nm, _ in items], op["form"])
+            if op["then_revert"] and r.snapshot is not None:
+                # the last assignment of the call is the revertible one
+                got = _outcome_real(lambda: s.revert())
+                if got[0] != "ok":
+                    violation(out, "revert_protocol", f"revert_failed:{got[0]}", f"{where}: {got[1]}")
+                nm0, old0 = r.snapshot
+                r.indep[nm0] = old0
+                r.snapshot = None
+                since_assign[sid] = None
+                probes["probe.revert_after_bulk_update"] += 1
+                log.add("revert_after_update", sid, nm0)
         elif k == "set_none":
             nm = _resolve(op["name"], op["sel"], info, plan)
             if nm is None:
